@@ -83,7 +83,7 @@ class E1Run:
         elif a.get("shipped"):
             from dst.scenario import load_shipped
 
-            self.scenario = load_shipped(a["shipped"], max_episode_length=a.get("max_episode_length"), seed=a.get("game_seed", self.seed % (2**31)), io=a.get("io"), tap_variation=a.get("tap_variation"))
+            self.scenario = load_shipped(a["shipped"], max_episode_length=a.get("max_episode_length"), seed=a.get("game_seed", self.seed % (2**31)), io=a.get("io"), tap_variation=a.get("tap_variation"), tap_fast=bool(a.get("tap_fast")))
             self.origin = "shipped:" + a["shipped"] + ("+tap-variation" if a.get("tap_variation") is not None else "")
         else:
             from dst.scenario import generate
@@ -240,6 +240,7 @@ class E1Run:
             raise Violation("C01", "reset-raises", f"env.reset(seed={seed}) raised {info['type']}: {info['text']}", sig=f"reset-raises:{info['type']}:{info['where']}", detail={"exc": info, "origin": self.origin})
         self.steps_since_reset = 0
         self._ambushed = set()
+        self._flap = None
         self.episodes += 1
         self.fault("F6_reset")
         if old_objs is not None:
@@ -382,13 +383,49 @@ class E1Run:
                 continue
             last = acted[-1]
             key = (name, last.timestep)
-            if last.action == "node-application-install" and last.response.status == "success" and key not in self._ambushed:
+            if last.action == "node-application-install" and last.response.status == "success" and key not in self._ambushed and self.args.get("ambush_mode", "uninstall") == "uninstall":
                 node = net.get_node_by_hostname(last.parameters.get("node_name"))
                 app = last.parameters.get("application_name")
                 if node is not None and app in node.software_manager.software and r.random() < 0.6:
                     self._ambushed.add(key)
                     self.probe("fault_uninstall_of_application_just_installed_by_scripted_agent")
                     return ["req", ["network", "node", node.config.hostname, "software_manager", "application", "uninstall", app], "F4_uninstall"]
+        # third kind: once a scripted agent has started its beacon, the beacon's host is switched off for good; the
+        # agent keeps talking to a C2 server whose beacon has gone silent
+        if self.args.get("ambush_mode") == "c2cut":
+            for name, ag in env.game.agents.items():
+                if name in env.game.rl_agents:
+                    continue
+                acted = [i for i in ag.history if i.action != "do-nothing"]
+                if acted and acted[-1].action == "node-application-execute" and acted[-1].parameters.get("application_name") == "c2-beacon" and acted[-1].response.status == "success" and (name, "cut") not in self._ambushed:
+                    host = acted[-1].parameters.get("node_name")
+                    if host and net.get_node_by_hostname(host) is not None:
+                        self._ambushed.add((name, "cut"))
+                        self.probe("fault_beacon_host_switched_off_after_c2_established")
+                        return ["req", ["network", "node", host, "shutdown"], "F1_power"]
+        # second kind of interference: the node's interface is pulled for exactly one of the agent's actions (the one
+        # after it has configured its beacon) and plugged in again afterwards
+        flap = getattr(self, "_flap", None)
+        if flap is not None:
+            name, host, n_acted = flap
+            ag = env.game.agents.get(name)
+            acted_now = len([i for i in ag.history if i.action != "do-nothing"]) if ag is not None else n_acted + 1
+            if acted_now > n_acted:
+                self._flap = None
+                return ["req", ["network", "node", host, "network_interface", 1, "enable"], "F2_nic"]
+        elif self.args.get("ambush_mode", "uninstall") == "flap":
+            for name, ag in env.game.agents.items():
+                if name in env.game.rl_agents:
+                    continue
+                acted = [i for i in ag.history if i.action != "do-nothing"]
+                if acted and acted[-1].action == "configure-c2-beacon" and acted[-1].response.status == "success" and (name, "flap", acted[-1].timestep) not in self._ambushed and r.random() < 0.8:
+                    host = acted[-1].parameters.get("node_name")
+                    node = net.get_node_by_hostname(host) if host else None
+                    if node is not None and 1 in node.network_interface and node.network_interface[1].enabled:
+                        self._ambushed.add((name, "flap", acted[-1].timestep))
+                        self._flap = (name, host, len(acted))
+                        self.probe("fault_interface_pulled_for_one_scripted_action")
+                        return ["req", ["network", "node", host, "network_interface", 1, "disable"], "F2_nic"]
         quiet = [k for k, v in sorted(env.agent.action_manager.action_map.items()) if v[0] == "do-nothing"]
         if quiet and r.random() < float(self.args.get("ambush")):
             op = ["step", quiet[0]]
@@ -419,7 +456,7 @@ class E1Run:
         node = r.choice(hosts)
         hn = node.config.hostname
         base = ["network", "node", hn]
-        kind = r.choice(["create_burst", "delete_burst", "access_burst", "login_burst", "exec_burst", "transfer_burst"])
+        kind = r.choice(["create_burst", "delete_burst", "access_burst", "login_burst", "exec_burst", "transfer_burst", "restore_burst"])
         ops: List[List] = []
         named = [f for f in node.file_system.folders.values() if not _ID_RE.search(f.name)]  # concrete ops never carry opaque ids
         if not named:
@@ -448,6 +485,11 @@ class E1Run:
                 app = r.choice(apps)
                 for _ in range(r.randint(3, 12)):
                     ops.append(["req", base + ["application", app, "execute"], "push_exec"])
+        elif kind == "restore_burst":
+            # files deleted in earlier ticks come back in this one (file-system level restore)
+            for folder in named:
+                for f in sorted(x.name for x in folder.deleted_files.values())[:6]:
+                    ops.append(["req", base + ["file_system", "restore", "file", folder.name, f], "push_restore"])
         elif kind == "transfer_burst":
             # several large FTP transfers in one tick: more traffic than the interface's nominal speed when links allow
             senders = [n for n in hosts if "ftp-client" in n.software_manager.software]
@@ -481,6 +523,25 @@ class E1Run:
         kinds = ["F1_power", "F2_nic", "F4_service", "F4_app", "F3_acl", "FS_file"] + list(self.args.get("extra_faults") or [])
         k = r.choice(kinds)
         base = ["network", "node", hn]
+        if k == "FS_cycle":
+            # a folder is deleted, later restored through the file system's restore request, and files in it deleted
+            cands = [n for n in nodes if getattr(n, "file_system", None) is not None and n.operating_state.name == "ON"]
+            if not cands:
+                return None
+            node = r.choice(cands)
+            base2 = ["network", "node", node.config.hostname, "file_system"]
+            dead = sorted(f.name for f in node.file_system.deleted_folders.values() if not _ID_RE.search(f.name))
+            live = sorted(f.name for f in node.file_system.folders.values() if not _ID_RE.search(f.name) and f.name != "root")
+            x_ = r.random()
+            if dead and x_ < 0.5:
+                return ["req", base2 + ["restore", "folder", r.choice(dead)], k]
+            if live and x_ < 0.75:
+                return ["req", base2 + ["delete", "folder", r.choice(live)], k]
+            withfiles = [(f.name, sorted(x.name for x in f.files.values())) for f in node.file_system.folders.values() if f.files and not _ID_RE.search(f.name)]
+            if withfiles:
+                fo, files = r.choice(sorted(withfiles))
+                return ["req", base2 + ["delete", "file", fo, r.choice(files)], k]
+            return None
         if k == "F8_recable":
             cabled = [(n.config.hostname, p) for n in nodes for p, i in n.network_interface.items() if getattr(i, "_connected_link", None) is not None and n.operating_state.name == "ON"]
             if not cabled:
